@@ -515,6 +515,19 @@ class XmlDocument(SubXmlBase):
                                         "is not recognized", xsi_type, classkey)
                     raise ValidationError(xsi_type)
 
+                if (newclass.get_namespace(), newclass.get_type_name()) == \
+                                   (cls.get_namespace(), cls.get_type_name()):
+                    # the declared type spelled out: nothing to substitute.
+                    newclass = cls
+
+                elif not self.issubclass(newclass, cls):
+                    # xsi:type can only select a type derived from the
+                    # declared one. anything else would hand a value of an
+                    # unrelated type to user code.
+                    logger.error("xsi:type '%s' is not derived from %r",
+                                                                 xsi_type, cls)
+                    raise ValidationError(xsi_type)
+
                 cls = newclass
                 logger.debug("xsi:type '%s' overrides %r to %r", xsi_type,
                                                                   cls, newclass)
